@@ -347,6 +347,12 @@ retry:
 
 	resp, err := s.client.Do(req)
 	if err != nil {
+		// A request that failed because the caller's context ended says
+		// nothing about the address: do not give up on it. The client may be
+		// shared with the publisher's next sync.
+		if ctx.Err() != nil {
+			return fmt.Errorf("fetch request failed: %w", err)
+		}
 		if len(s.urls) != 0 {
 			log.Errorw("Fetch request failed, will retry with next address", "err", err)
 			s.rootURL = *s.urls[0]
